@@ -143,6 +143,35 @@ def run(ctx):
                 if old in d0 and (new not in d0 or (new not in [s[1] for s in doc if s[0] == "decay"] and d0[new] != d0[old])):
                     res.violation("with charge-conjugate decays disabled a CopyDecay statement does not give its table", dict(case0, copy=[new, old], include_ccdecays=False),
                                   impl=list(d0), clause="CopyDecay")
+        if i % 4 == 1:
+            # the same text read from files (one or two): parsed, queried and parsed again on one object, the answers are those of
+            # the freshly parsed instance
+            import os
+            import tempfile
+
+            with tempfile.TemporaryDirectory(prefix="verif_c08_") as td:
+                cut = rng.randint(1, max(1, len(doc) - 1)) if len(doc) > 1 and rng.random() < 0.5 else None
+                if cut is None:
+                    paths = [os.path.join(td, "all.dec")]
+                    open(paths[0], "w").write(text)
+                else:
+                    paths = [os.path.join(td, "one.dec"), os.path.join(td, "two.dec")]
+                    open(paths[0], "w").write(render_doc(doc[:cut]))
+                    open(paths[1], "w").write(render_doc(doc[cut:]))
+                try:
+                    pf = DecFileParser(*paths)
+                    pf.parse()
+                    first = full_snapshot(pf, chain_budget=300)
+                    pf.list_decay_mother_names()
+                    parse_with(pf, True)
+                    second = full_snapshot(pf, chain_budget=300)
+                except Exception as e:
+                    first, second = None, {"raised": f"{type(e).__name__}: {str(e)[:120]}"}
+            res.count("file_built_reparsed")
+            if first is not None and (canon_json(second) != canon_json(first)):
+                diff = [k for k in first if canon_json(first[k]) != canon_json(second.get(k))] if "raised" not in second else second
+                res.violation("a parser built from files gives other answers after parsing the same files again", dict(case0, files=len(paths), history=["parse()", "parse()"]),
+                              impl=diff, clause="history independence")
         trees = list(p._parsed_decays)
         idsets = [reachable_ids(t) for t in trees]
         for a in range(len(trees)):
